@@ -46,9 +46,19 @@ pub enum Value {
     Ctor(Ctor<CtorName, RcValue>),
     Triv(Triv),
     VCons(ConsN<RcValue, RcValue>),
-    Proj(Proj<RcValue, usize>),
+    Proj(Proj<RcValue, ProductPosition>),
     Lit(Literal),
     SemValue(SemValue),
+}
+
+/// A static product position surviving name erasure.
+///
+/// Run-time products are flattened along their right spine, so the last static
+/// component of a product denotes the whole remaining suffix of fields.
+#[derive(Copy, Clone, Debug, PartialEq, Eq)]
+pub struct ProductPosition {
+    pub index: usize,
+    pub last: bool,
 }
 
 /* ------------------------------- Computation ------------------------------ */
